@@ -14,16 +14,22 @@ open GbVerif.X86
 def indexOf (code : List (Nat × Instr)) (endOff off : Nat) : Option Nat :=
   if off == endOff then some code.length else code.findIdx? (fun p => p.1 == off)
 
+/-- the register an 8-bit operand lives in -/
+def r8reg : R8 → Nat | .lo i => i | .hi i => i
+
+/-- the general-purpose register an instruction writes (any width), if any; `call rax` is not listed: it clobbers the
+caller-saved registers rax, rcx, rdx, rsi, rdi, r8-r11 only -/
+def destReg : Instr → Option Nat
+  | .alu8 op d _ | .alu8i op d _ => if op == .cmp then none else some (r8reg d)
+  | .aluI op _ d _ _ | .alu op _ d _ => if op == .cmp then none else some d
+  | .not8 r | .incdec8 _ r | .sh8 _ r _ | .mov8 r _ | .mov8i r _ | .sete r => some (r8reg r)
+  | .incdec16 _ r | .sh32 _ r _ | .mov _ r _ | .movi16 r _ | .movabs r _ | .load _ r _ _ | .pop r => some r
+  | _ => none
+
 /-- does the instruction write r15 in any way other than `add r15, imm8`? -/
 def writesR15Otherwise : Instr → Bool
   | .aluI .add .q 15 [_] true => false
-  | .aluI op _ 15 _ _ => op != .cmp
-  | .alu op _ 15 _ => op != .cmp
-  | .alu8 op (.lo 15) _ => op != .cmp
-  | .alu8i op (.lo 15) _ => op != .cmp
-  | .not8 (.lo 15) | .incdec8 _ (.lo 15) | .incdec16 _ 15 | .sh8 _ (.lo 15) _ | .sh32 _ 15 _ => true
-  | .mov8 (.lo 15) _ | .mov8i (.lo 15) _ | .mov _ 15 _ | .movi16 15 _ | .movabs 15 _ | .load _ 15 _ _ | .sete (.lo 15) | .pop 15 => true
-  | _ => false
+  | ins => destReg ins == some 15
 
 /-- all path sums from instruction `i` to the end of the code; `none` on a malformed jump (backward, into the middle
 of an instruction, or symbolic displacement) or a write to r15 that is not a cycle increment -/
